@@ -64,7 +64,7 @@ TEXT["C04"] = {
     "engine": "harness/c04 + lib/walkeng (bubble, race, race-cancel, stress) + restore fault enumeration through the real output registry + lib/histeng timeout/failure histories of the real binary",
     "technique": "property testing over failure/cancel patterns with synctest deadlock detection, race-detector stress, and exhaustive single/pair fault enumeration over every cache object of a restore",
     "design_ref": "DESIGN.md §4 C04",
-    "level_text": "Walker level: generated failure sets, fail-fast on/off and cancel times over graphs up to 4000 nodes; Walk must return and leave every selected node resolved. Restore level: for every cache blob of generated outputs x {deleted, truncated, emptied}, pairs of deletions and all-deleted, LoadOutputs must return. Binary level: histories in which targets exceed their declared timeout, fail or kill their shell, in keep-going and fail-fast builds; every build must exit on its own and resolve every selected target.",
+    "level_text": "Walker level: generated failure sets, fail-fast on/off and cancel times over graphs up to 4000 nodes; Walk must return and leave every selected node resolved. Restore level: for every cache blob of generated outputs x {deleted, truncated, emptied}, pairs of deletions and all-deleted, LoadOutputs must return. Binary level: histories in which targets exceed their declared timeout, fail or kill their shell, in keep-going and fail-fast builds; every build must exit on its own and resolve every selected target; builds of 60-600 targets (cold and warm, optional failure) must terminate with the right exit status.",
     "level_note": "Fault enumeration is complete per generated output set for single faults (and up to 40 pairs); which output sets are generated is sampled. Leaked goroutines after Walk returned are not violations.",
 }
 TEXT["C10"] = {
